@@ -42,9 +42,14 @@ class VerusResult:
     pass
 
 
-def run_verus(path, modules=None, rlimit=None, threads=None, extra=None, timeout=3600, multiple_errors=5):
+def run_verus(path, modules=None, rlimit=None, threads=None, extra=None, timeout=3600, multiple_errors=5, spinoff=True):
     cmd = ['verus', path, '--triggers-mode', 'silent', '--error-format=json', '--output-json', '--time-expanded',
            '--multiple-errors', str(multiple_errors)]
+    if spinoff and not os.environ.get('VERIF_NO_SPINOFF'):
+        # one solver process per function: a query no longer depends on the solver state left behind by the functions
+        # verified before it in the same module (One::find_raw went from unstable -- diverging or not depending on the
+        # crate name -- to a steady 8-10M rlimit units)
+        cmd += ['-V', 'spinoff-all']
     if modules:
         for m in modules:
             cmd += ['--verify-module', m]
